@@ -1,3 +1,128 @@
 import Driver.Loop
-/- placeholder: the C08 view has no executable model yet -/
-def main : IO Unit := Drv.runLoop fun _ => .atom "bad-op"
+import PMV.Model.ReadOnly
+/- line-protocol handler for the C08 view: one request = one whole history of calls;
+   answer = for every step the result class and the observation of every object / caller-held array so far -/
+namespace Drv.C08
+open PMV PMV.ReadOnly
+
+def err (msg : String) : Sx := .list [.atom "driver-error", .atom msg]
+
+def parseMode : Sx → Option Mode
+  | .atom "view" => some .view
+  | .atom "keepmask" => some .viewKeepMask
+  | .atom "copy" => some .copy
+  | .atom "bcast" => some .bcast
+  | .atom "scalar" => some .scalar
+  | _ => none
+
+def parseMC : Sx → Option MaskClass
+  | .atom "none" => some .none_
+  | .atom "all" => some .all_
+  | .atom "mixed" => some .mixed
+  | _ => none
+
+def parsePairs (x : Sx) : Option (List (Nat × Nat)) := do
+  let l ← x.toList?
+  l.mapM fun p => match p with
+    | .list [a, b] => do some ((← a.toNat?), (← b.toNat?))
+    | _ => none
+
+/-- request op (object operands are VARIABLE numbers) -> model op (object ids) -/
+def parseOp (vars : List Nat) (x : Sx) : Option Op :=
+  let var (s : Sx) : Option Nat := do vars[(← s.toNat?)]?
+  match x with
+  | .list [.atom "mk", n, mn, m, u, d] => do
+    let mask : Option Bool ← match m with
+      | .atom "A" => some none
+      | .atom "T" => some (some true)
+      | .atom "F" => some (some false)
+      | _ => none
+    some (.mk (← n.toNat?) (← mn.toNat?) mask (← u.toBool?) (← d.toBool?))
+  | .list [.atom "mks", m, u, d] => do some (.mks (← m.toBool?) (← u.toBool?) (← d.toBool?))
+  | .list [.atom "derive", v, m, vi, mi, msc, r] => do
+    let msc : Option Bool ← match msc with
+      | .atom "A" => some none
+      | x => (x.toBool?).map some
+    some (.derive (← var v) (← parseMode m) ⟨← vi.nats?, ← mi.nats?, msc⟩ (← r.toBool?))
+  | .list [.atom "wod", v] => do some (.wod (← var v))
+  | .list [.atom "clone", v, r] => do some (.clone (← var v) (← r.toBool?))
+  | .list [.atom "copy", v, r, ro] => do some (.copy (← var v) (← r.toBool?) (← ro.toBool?))
+  | .list [.atom "neg", v] => do some (.neg (← var v))
+  | .list [.atom "pickle", v, mc, dmc] => do
+    let ps ← (← dmc.toList?).mapM fun p => match p with
+      | .list [k, c] => do some ((← k.toNat?), (← parseMC c))
+      | _ => none
+    some (.pickle (← var v) (← parseMC mc) ps)
+  | .list [.atom "getderiv", v, k] => do some (.getDeriv (← var v) (← k.toNat?))
+  | .list [.atom "rawref", v, m] => do some (.rawRef (← var v) (← m.toBool?))
+  | .list [.atom "rawview", v, m, idx] => do some (.rawView (← var v) (← m.toBool?) (← idx.nats?))
+  | .list [.atom "setitem", v, pos, mpos] => do some (.setItem (← var v) (← pos.nats?) (← mpos.nats?))
+  | .list [.atom "iop", v, f] => do some (.iop (← var v) (← f.toBool?))
+  | .list [.atom "setunits", v, u, ov] => do some (.setUnits (← var v) (← u.toNat?) (← ov.toBool?))
+  | .list [.atom "deld", v, k, ov] => do some (.deleteDeriv (← var v) (← k.toNat?) (← ov.toBool?))
+  | .list [.atom "delds", v, ov] => do some (.deleteDerivs (← var v) (← ov.toBool?))
+  | .list [.atom "insd", v, k, d, ov] => do some (.insertDeriv (← var v) (← k.toNat?) (← var d) (← ov.toBool?))
+  | .list [.atom "insds", v, kds, ov] => do
+    let ps ← parsePairs kds
+    let ps ← ps.mapM fun (k, d) => do some (k, ← vars[d]?)
+    some (.insertDerivs (← var v) ps (← ov.toBool?))
+  | .list [.atom "asro", v, r] => do some (.asReadonly (← var v) (← r.toBool?))
+  | .list [.atom "reqw", v] => do some (.requireWritable (← var v))
+  | .list [.atom "write", u, pos] => do some (.write (← u.toNat?) (← pos.nats?))
+  | _ => none
+
+def flagV (s : State) : Val → Sx
+  | .sc _ => .atom "S"
+  | .arr a => Sx.ofBool (s.arrW a)
+
+def flagM (s : State) : Msk → Sx
+  | .sc _ => .atom "S"
+  | .arr a => Sx.ofBool (s.arrW a)
+
+def objFlags (s : State) (o : Obj) : List Sx := [Sx.ofBool o.ro, flagV s o.vals, flagM s o.mask]
+
+/-- `(ro vw mw changed (key ro vw mw)...)` -/
+def varObs (before after : State) (i : Nat) : Sx :=
+  match after.objs[i]? with
+  | some o =>
+    let ch := match before.objs[i]? with
+      | some _ => obs before i != obs after i
+      | none => false
+    .list (objFlags after o ++ [Sx.ofBool ch] ++ (o.derivs.mergeSort fun a b => a.1 ≤ b.1).map fun kd =>
+      match after.objs[kd.2]? with
+      | some d => Sx.list (Sx.ofNat kd.1 :: objFlags after d)
+      | none => .atom "dangling")
+  | none => .atom "no-object"
+
+def resSx : Res → Sx
+  | .ok => .atom "ok"
+  | .obj _ => .atom "obj"
+  | .usr _ => .atom "usr"
+  | .err .value => .atom "ValueError"
+  | .err .type => .atom "TypeError"
+  | .err .bad => .atom "bad-handle"
+
+def runHist : State → List Nat → List Sx → List Sx → List Sx
+  | _, _, [], acc => acc.reverse
+  | s, vars, x :: xs, acc =>
+    match parseOp vars x with
+    | none => (err "op" :: acc).reverse
+    | some op =>
+      let (s', r) := step s op
+      let vars' := match r with
+        | .obj i => vars ++ [i]
+        | _ => vars
+      let line := Sx.list [resSx r, .list (vars'.map (varObs s s')),
+                            .list (s'.user.map fun a => Sx.ofBool (s'.arrW a))]
+      runHist s' vars' xs (line :: acc)
+
+def handle : List Sx → Sx
+  | [.atom "hist", .list ops] => .list (runHist State.empty [] ops [])
+  | _ => err "c08-op"
+
+end Drv.C08
+
+def main : IO Unit := Drv.runLoop fun x =>
+  match x with
+  | .list (.atom "c08" :: rest) => Drv.C08.handle rest
+  | _ => .atom "bad-op"
